@@ -6,6 +6,8 @@ import (
 	"strings"
 
 	"github.com/B1NARY-GR0UP/originium"
+
+	"verif/vsched"
 )
 
 // ---------------------------------------------------------------- configurations
@@ -52,6 +54,8 @@ func (p txProg) String() string {
 			s = append(s, "w("+o.K+"="+o.V+")")
 		case "D":
 			s = append(s, "d("+o.K+")")
+		case "Q":
+			s = append(s, "quiesce")
 		}
 	}
 	kind := "ro"
@@ -157,9 +161,17 @@ func (h *history) String() string {
 	return strings.Join(s, "\n      ")
 }
 
-// runTxn executes one program on db through Begin/…/Commit|Discard and records it.
+// liveTxn is a transaction whose operations have run and whose Commit/Discard is still to come.
+type liveTxn struct {
+	tx  *originium.Txn
+	rec *txnRec
+	p   txProg
+	h   *history
+}
+
+// startTxn runs Begin and the operations of a program and records them.
 // yield is called between API calls (nil: none).
-func runTxn(db *originium.DB, h *history, name string, p txProg, yield func()) *txnRec {
+func startTxn(db *originium.DB, h *history, name string, p txProg, yield func()) *liveTxn {
 	rec := &txnRec{Name: name, Update: p.Update, End: p.End}
 	h.add(rec)
 	rec.BeginCall = h.tick()
@@ -169,6 +181,11 @@ func runTxn(db *originium.DB, h *history, name string, p txProg, yield func()) *
 	for _, o := range p.Ops {
 		if yield != nil {
 			yield()
+		}
+		if o.Op == "Q" {
+			// steering only: wait until every other goroutine is finished or blocked (writers done, flusher idle)
+			vsched.WaitQuiescent()
+			continue
 		}
 		oo := obsOp{Op: o.Op, K: o.K, V: o.V}
 		switch o.Op {
@@ -189,18 +206,29 @@ func runTxn(db *originium.DB, h *history, name string, p txProg, yield func()) *
 	if yield != nil {
 		yield()
 	}
-	rec.EndCall = h.tick()
-	switch p.End {
+	return &liveTxn{tx: tx, rec: rec, p: p, h: h}
+}
+
+// finish runs the final Commit or Discard.
+func (l *liveTxn) finish() *txnRec {
+	rec := l.rec
+	rec.EndCall = l.h.tick()
+	switch l.p.End {
 	case "C":
-		if err := tx.Commit(); err != nil {
+		if err := l.tx.Commit(); err != nil {
 			rec.Err = err.Error()
 		}
 	default:
-		tx.Discard()
+		l.tx.Discard()
 	}
-	rec.EndRet = h.tick()
+	rec.EndRet = l.h.tick()
 	rec.Done = true
 	return rec
+}
+
+// runTxn executes one program on db through Begin/…/Commit|Discard and records it.
+func runTxn(db *originium.DB, h *history, name string, p txProg, yield func()) *txnRec {
+	return startTxn(db, h, name, p, yield).finish()
 }
 
 // ---------------------------------------------------------------- the history oracle
